@@ -119,6 +119,12 @@ UNIT = Opaque("unit")
 
 
 def clone_value(v, memo):
+    if isinstance(v, ElemCell):
+        if v.id in memo:
+            return memo[v.id]
+        c = ElemCell(clone_value(v.vec_cell, memo), v.idx)
+        memo[v.id] = c
+        return c
     if isinstance(v, Cell):
         if v.id in memo:
             return memo[v.id]
@@ -153,6 +159,24 @@ def clone_value(v, memo):
     if isinstance(v, ListIter):
         return ListIter([clone_value(x, memo) for x in v.items], v.idx)
     return v    # Z, MapV, VecV, IterV are immutable records over z3 terms
+
+
+class ElemCell(Cell):
+    """a cell that stands for element `idx` of the byte vector held by `vec_cell` (reads and writes go through)"""
+
+    def __init__(self, vec_cell, idx):
+        self.vec_cell = vec_cell
+        self.idx = idx
+        self.id = next(Cell._ids)
+
+    @property
+    def v(self):
+        return Z(z3.Select(self.vec_cell.v.arr, self.idx))
+
+    @v.setter
+    def v(self, val):
+        vv = self.vec_cell.v
+        self.vec_cell.v = VecV(z3.Store(vv.arr, self.idx, val.e), vv.length)
 
 
 class State:
@@ -346,7 +370,7 @@ class Engine:
             v = self.cell_of(st, frame, parse_place(m.group(1))).v
             dst.v = ("discr", v)
             return
-        m = re.match(r"^(Eq|Ne|Lt|Le|Gt|Ge|Mul|Add|Sub|MulWithOverflow|AddWithOverflow)\((.*)\)$", rhs)
+        m = re.match(r"^(Eq|Ne|Lt|Le|Gt|Ge|Mul|Add|Sub|BitAnd|BitOr|MulWithOverflow|AddWithOverflow)\((.*)\)$", rhs)
         if m:
             a, b = split_top(m.group(2))
             va, vb = self.operand(st, frame, a), self.operand(st, frame, b)
